@@ -341,7 +341,7 @@ def build_inputs(spec, wd):
     extra_inputs = []
     if spec["phased_input"]:
         # a phased VCF (true haplotypes, two blocks per chromosome) for the first sample as additional phase input
-        s0 = samples[-1]
+        s0 = samples[len(base_roles(spec)) - 1]
         phased = {s0: {}}
         for c in sc.chroms:
             nv = len(sc.variants[c])
@@ -371,15 +371,30 @@ def run_phase(ctx, spec, wd, timeout=600):
     for p in (out, trace, rl):
         if os.path.exists(p):
             os.unlink(p)
-    args = ["phase", "--reference", ref, "-o", out, "--internal-downsampling", spec["k"], "--tag", spec["tag"],
-            "--output-read-list", rl]
+    var = spec.get("var") or {}
+    args = ["phase", "-o", out, "--tag", spec["tag"], "--output-read-list", rl]
+    args += ["--no-reference"] if var.get("no_reference") else ["--reference", ref]
+    if not var.get("default_k"):
+        args += ["--internal-downsampling", spec["k"]]
+    if var.get("merge_reads"):
+        args += ["--merge-reads"]
+    if var.get("only_snvs"):
+        args += ["--only-snvs"]
+    if var.get("ignore_rg"):
+        args += ["--ignore-read-groups"]
+    if var.get("sample_subset"):
+        args += ["--sample", all_samples(spec)[0]]
+    if var.get("chrom_subset"):
+        args += ["--chromosome", sc.chroms[-1]]
     if ped:
         args += ["--ped", ped]
         if not spec["genetic"]:
             args += ["--no-genetic-haplotyping"]
     if spec["distrust"]:
         args += ["--distrust-genotypes"]
-    args += [vcf, bam] + extra_inputs
+        if var.get("include_homozygous"):
+            args += ["--include-homozygous"]
+    args += [vcf] + list(bam) + extra_inputs
     rc, so, se = run_cli(ctx, args, cwd=wd, env_extra={"WHATSHAP_VERIF_TRACE": trace}, timeout=timeout)
     res = {"rc": rc, "stderr": se, "args": [str(a) for a in args], "trace": [], "calls": {}, "readlist": [], "sc": sc}
     if rc != 0:
